@@ -6,9 +6,14 @@ import (
 	"strings"
 
 	"github.com/itchio/lake"
+	"github.com/itchio/lake/pools/fspool"
 	"github.com/itchio/lake/tlc"
 	"github.com/itchio/savior"
+	"github.com/itchio/savior/seeksource"
 	"github.com/itchio/wharf/pwr"
+	"github.com/itchio/wharf/pwr/bowl"
+	"github.com/itchio/wharf/pwr/patcher"
+	"github.com/pkg/errors"
 
 	"wv/internal/wvlib"
 )
@@ -63,6 +68,11 @@ func c09One(env *Env, m *wvlib.Model, c *C09Case) {
 		ed, _ := wvlib.Edit(r, d, 1)
 		old = &wvlib.Build{Entries: []wvlib.BEntry{{Path: "a.bin", Kind: 'f', Data: d}, {Path: "c.bin", Kind: 'f', Data: d[:len(d)/2]}}}
 		nw = &wvlib.Build{Entries: []wvlib.BEntry{{Path: "copy.bin", Kind: 'f', Data: d}, {Path: "a.bin", Kind: 'f', Data: ed}, {Path: "c.bin", Kind: 'f', Data: d[:len(d)/2]}}}
+	case "fresh-first":
+		// the first file of the new build is brand-new data (no read of the old build happens before the first
+		// checkpoints); see c09StopResume
+		old, nw = c.gen()
+		nw.Entries = append(nw.Entries, wvlib.BEntry{Path: "0-fresh.bin", Kind: 'f', Data: r.Bytes(200 + r.Intn(2000))})
 	default:
 		old, nw = c.gen()
 	}
@@ -166,6 +176,24 @@ func c09One(env *Env, m *wvlib.Model, c *C09Case) {
 		env.R.Violate(cls, aerr.Error(), c)
 	}
 	os.RemoveAll(out)
+	// ---- the same application stopped at EVERY checkpoint and resumed, all sessions reading the old build through
+	// ONE safekeeper (patcher.Resume closes the pool each time it returns; a pool is reusable after Close)
+	if c.Special == "fresh-first" || c.Seed%4 == 0 {
+		stops, serr := c09StopResume(patch, dmgDir, base+"/out-sr", sig)
+		env.R.Count("stop-resume-one-safekeeper", 1)
+		env.R.Count("stop-resume-one-safekeeper:stops", int64(stops))
+		if serr == nil {
+			got2, _ := wvlib.ReadTree(base + "/out-sr")
+			if d := wvlib.DiffTrees(got2, nw); d != "" {
+				env.R.Violate("silent-wrong-result:stop-resume", fmt.Sprintf("damage %v: stopped %d times, returned nil but %s", c.Damage, stops, d), c)
+			}
+		} else if strings.HasPrefix(serr.Error(), "PANIC") {
+			env.R.Violate("safekeeper-panic:stop-resume", serr.Error(), c)
+		} else if !damaged {
+			env.R.Violate("pristine-rejected:stop-resume", fmt.Sprintf("after %d stops: %v", stops, serr), c)
+		}
+		os.RemoveAll(base + "/out-sr")
+	}
 	// ---- model
 	_, _, msgs, derr := decodePatch(patch)
 	if derr == nil {
@@ -217,6 +245,71 @@ func c09One(env *Env, m *wvlib.Model, c *C09Case) {
 	}
 }
 
+// c09StopResume applies the patch (every DATA op of two bytes or more split in two, which leaves it a valid patch of
+// the same pair with more message boundaries) in sessions that stop at every checkpoint offered; every session is a
+// new patcher and a new fresh bowl but the SAME safekeeper pool.
+func c09StopResume(patch []byte, oldDir, outDir string, sig []byte) (stops int, err error) {
+	defer func() {
+		if r := recover(); r != nil {
+			err = fmt.Errorf("PANIC %v", r)
+		}
+	}()
+	if oldC, newC, msgs, derr := decodePatch(patch); derr == nil {
+		var split []PMsg
+		for _, m := range msgs {
+			if m.Kind == "O" && pwr.SyncOp_Type(m.A) == pwr.SyncOp_DATA && len(m.Data) >= 2 {
+				h := len(m.Data) / 2
+				m1, m2 := m, m
+				m1.Data, m2.Data = m.Data[:h], m.Data[h:]
+				split = append(split, m1, m2)
+				continue
+			}
+			split = append(split, m)
+		}
+		if p2, eerr := encodePatch(oldC, newC, split, Comp{"none", 0}); eerr == nil {
+			patch = p2
+		}
+	}
+	var pool lake.Pool
+	var ck *patcher.Checkpoint
+	for {
+		p, err := patcher.New(seeksource.FromBytes(patch), quietConsumer)
+		if err != nil {
+			return stops, err
+		}
+		if pool == nil {
+			pool, err = pwr.NewSafeKeeper(pwr.SafeKeeperParams{Inner: fspool.New(p.GetTargetContainer(), oldDir), Open: func() (savior.SeekSource, error) { return bytesSource(sig), nil }})
+			if err != nil {
+				return stops, err
+			}
+		}
+		sv := &recSaver{stopAt: 0, every: 1}
+		p.SetSaveConsumer(sv)
+		b, err := bowl.NewFreshBowl(bowl.FreshBowlParams{SourceContainer: p.GetSourceContainer(), TargetContainer: p.GetTargetContainer(), TargetPool: pool, OutputFolder: outDir})
+		if err != nil {
+			return stops, err
+		}
+		err = p.Resume(ck, pool, b)
+		if err == nil {
+			if err = b.Commit(); err != nil {
+				return stops, err
+			}
+			return stops, b.Close()
+		}
+		b.Close()
+		if errors.Cause(err) != patcher.ErrStop || len(sv.saved) == 0 {
+			return stops, err
+		}
+		stops++
+		if stops > 100000 {
+			return stops, fmt.Errorf("no progress after %d stops", stops)
+		}
+		if ck, err = decodeCheckpoint(sv.saved[len(sv.saved)-1]); err != nil {
+			return stops, err
+		}
+	}
+}
+
 func runC09(env *Env) {
 	R := env.R
 	R.Rule = "(patch, damage) pairs: plain and optimized patches of random build pairs, old build damaged by flips (reused and unreused blocks), truncation (incl. exactly at block boundaries), extension (inside the last block, past it), deleted/emptied files; pristine controls; the three special shapes (whole-file copy of a k*64KiB file, bytes appended inside the last partial block of a copied file, truncation at a block boundary); distinct by seed; non-trivial = the old build really is damaged"
@@ -246,6 +339,9 @@ func runC09(env *Env) {
 			c.Special = "extend-last-block"
 		case 11:
 			c.Special = "truncate-at-boundary"
+		case 2, 8:
+			c.Special = "fresh-first"
+			c.Opts.SmallOnly = true
 		}
 		cases[i] = c
 	}
